@@ -1,6 +1,6 @@
 (* C17, further lemmas: Horseshoe prior = documented bound average; SmoothedBox plateau; the Uniform
    prior is normalised (Coquelicot RInt).  Separate file because it needs Coquelicot. *)
-From Coq Require Import Arith List Reals QArith Qcanon Lra.
+From Coq Require Import Arith List Reals QArith Qcanon Lra Lia.
 From Coquelicot Require Import Coquelicot.
 From GPV Require Import Base.LinAlg Base.Exec Base.Expr Models.C17_constraints Proofs.C17_constraints.
 Import ListNotations.
